@@ -1228,7 +1228,13 @@ func (r *replicateChannelHandler) getPartitionInfoForKafka(ctx context.Context, 
 	return collectionInfo, nil
 }
 
+// RemovePartitionInfo is called when the drop request of the partition has been handed over, i.e. every shard has read the
+// drop message: the partition's name is forgotten too
 func (r *replicateChannelHandler) RemovePartitionInfo(collectionID int64, name string, id int64) {
+	r.removePartitionInfo(collectionID, name, id, true)
+}
+
+func (r *replicateChannelHandler) removePartitionInfo(collectionID int64, name string, id int64, forgetName bool) {
 	targetInfo, err := r.getCollectionTargetInfo(collectionID)
 	if err != nil {
 		log.Warn("fail to get collection target info", zap.Int64("collection_id", collectionID), zap.Error(err))
@@ -1241,7 +1247,11 @@ func (r *replicateChannelHandler) RemovePartitionInfo(collectionID int64, name s
 	}
 	r.recordLock.Lock()
 	defer r.recordLock.Unlock()
-	if targetInfo.PartitionInfo[name] == id {
+	// PartitionInfo (shared by the handlers of the collection) maps the name to the partition's id in the target, which can't
+	// be compared with id, the id in the source. A name that stayed here would stand for the dropped partition when a
+	// partition of that name is created again: no create request, and its data addressed to the dropped one. A missing
+	// name is learnt again from the target.
+	if forgetName {
 		delete(targetInfo.PartitionInfo, name)
 	}
 	delete(targetInfo.PartitionBarrierChan, id)
@@ -1702,7 +1712,8 @@ func (r *replicateChannelHandler) handlePack(forward bool, pack *msgstream.MsgPa
 					Msg:      msg,
 					VChannel: info.VChannel,
 				})
-				r.RemovePartitionInfo(sourceCollectionID, realMsg.PartitionName, partitionID)
+				// the other shards still need the name for their own drop message
+				r.removePartitionInfo(sourceCollectionID, realMsg.PartitionName, partitionID, false)
 			}
 		case *msgstream.ImportMsg:
 			if info.Dropped {
